@@ -72,6 +72,7 @@ func ruleC20(c *Check) {
 	c.mapRanges(fs)
 	c.panicInventory(fs, r)
 	c.mutateWhileIterating()
+	c.priceNonEmpty(fs)
 	// justification of the respond function's panics
 	u := c.feeUnits("C20.3")
 	if u.complete() {
@@ -494,4 +495,64 @@ func batchStartListNonEmpty(call *Term) bool {
 		}
 	}
 	return false
+}
+
+// priceNonEmpty: sdk.Coins.GetDenomByIndex(i) indexes the coin set. In reachable code it is applied to the
+// Price of a stored pricing, which must therefore never be empty: every pricing that is stored comes from the
+// pricing parser (C15.6), and every success path of the parser yields a one-element literal or NewCoins of a
+// coin known to be non-zero (NewCoins drops zero coins).
+func (c *Check) priceNonEmpty(fs []*Func) {
+	gPricing := c.getterByFamily("0x06")
+	parser := c.P.FuncNamed(c.nParsePricing())
+	sites := 0
+	for _, f := range fs {
+		seen := map[token.Pos]bool{}
+		for _, pa := range c.P.PathsOf(f) {
+			for _, ev := range pa.Events {
+				if ev.Kind != EvCall || ev.CI.name != "sdk.Coins.GetDenomByIndex" || seen[ev.Pos] {
+					continue
+				}
+				seen[ev.Pos] = true
+				sites++
+				x := ev.CI.recv
+				ok := false
+				if x != nil && strings.HasSuffix(x.Op, ".Pricing.Price") && len(x.A) == 1 && gPricing != nil {
+					src := x.A[0]
+					if src.Op == gPricing.Name || (src.Op == "res" && src.ContainsOp(c.nParsePricing())) {
+						ok = true
+					}
+				}
+				c.req(ok, "C20.3", unitConstruct(f, "index:GetDenomByIndex"), ev.Pos, "GetDenomByIndex is applied to the Price of a stored (parser-produced) pricing: "+shortTerm(x))
+			}
+		}
+	}
+	if sites == 0 {
+		return
+	}
+	if parser == nil {
+		c.undecided("C20.3", "pricing-parser", token.NoPos, "pricing parser not found")
+		return
+	}
+	n := 0
+	var problems []string
+	for _, pa := range c.P.PathsOf(parser) {
+		if pa.Exit != ExitSuccess || len(pa.Ret) == 0 {
+			continue
+		}
+		n++
+		price := field("Pricing", "Price", pa.Ret[0])
+		switch {
+		case price.Op == "lit" && len(price.A) >= 2:
+			// explicit literal with at least one element
+		case price.Op == "sdk.NewCoins" && len(price.A) == 1:
+			coin := price.A[0]
+			if !pa.AllFacts().Has(Fact{T: mk("sdk.Coin.IsZero", coin), Neg: true}) {
+				problems = append(problems, "NewCoins("+shortTerm(coin)+") without excluding a zero coin (NewCoins drops zero coins: the stored Price would be empty)")
+			}
+		default:
+			problems = append(problems, "Price = "+shortTerm(price))
+		}
+	}
+	c.req(n >= 1 && len(problems) == 0, "C20.3", unitConstruct(parser, "price-non-empty"), parser.Body.Pos(),
+		fmt.Sprintf("every success path of the pricing parser yields a non-empty Price (%d paths)", n)+condStr(len(problems) > 0, ": "+strings.Join(uniq(sortStrings(problems)), "; ")))
 }
